@@ -38,6 +38,8 @@ MUTANTS = [m for m in _c11.MUTANTS if 'terminate' in m[3] or 'signalled' in m[3]
      'SIGTERM handler also kills the context helpers (their workers are orphaned)'),
 ]
 MUTANTS += [
+    ('pyworkers/remote_server.py', "        signal.signal(signal.SIGTERM, cleanup)\n", "        signal.signal(signal.SIGINT, cleanup)\n", 'the clean-up handler is registered for SIGINT instead of SIGTERM'),
+    ('pyworkers/remote_server.py', "                cli.connect(('127.0.0.1', self.addr[1]))", "                cli.connect(('127.0.0.1', self.addr[0]))", 'break_accept connects to a wrong port when bound to 0.0.0.0'),
     ('pyworkers/remote.py', "                        send_msg(self._socket, (False, None), comment='data: force terminate result')\n                        self._socket.close()\n", "                        self._socket.close()\n", 'server-side forced terminate no longer tells the parent'),
     ('pyworkers/remote.py', "            if self._child.is_alive():\n                if force:\n                    self._child.terminate()\n                    self._child.join(timeout)\n                    try:", "            if self._child.is_alive():\n                if True:\n                    self._child.terminate()\n                    self._child.join(timeout)\n                    try:", 'server-side terminate kills without force'),
     ('pyworkers/remote.py', "            alive = self._child.is_alive()\n            if not alive:\n                self._dead = True\n                self._ctrl_comms.parent_end.close()", "            alive = False\n            if not alive:\n                self._dead = True\n                self._ctrl_comms.parent_end.close()", 'server-side terminate always claims the child is dead'),
@@ -131,7 +133,72 @@ def build(ex):
         ensures=[signalled], raises={}, raises_only=[],
         loops={0: Loop(invariant=[loop_inv, same_list], variant='__n__ - __i__', modifies=['ghost:killed_pids', 'abs:RCtx.alive'], on_bind=children_bound)},
         options={'recv_closed_check': False})
-    return [(run, None), (L2a, None)] + server_side_terminate(ex)
+    return [(run, None), (L2a, None)] + server_side_terminate(ex) + registration_lemmas(ex)
+
+
+def registration_lemmas(ex):
+    """L2r: install_handlers registers the clean-up closure of L2a for SIGTERM (and nothing else on this platform); L5: break_accept, which the control
+    thread of the server process calls right after raising the terminate request in the main thread, makes one dummy connection to the server's own
+    listening address (loop-back when bound to 0.0.0.0) and closes it - that is what lets a blocked accept() return so that the request can surface"""
+    from pyvc.contracts import AbsClass
+    repo = ex.repo
+    out = []
+
+    def ih_setup(ex_, env):
+        server.server_state(ex_, env)
+        ex_.ghost['registered'] = []
+
+        def sig(ex2, a, k):
+            who = a[1]
+            ex2.ghost['registered'] = ex2.ghost['registered'] + [(getattr(a[0], 'name', repr(a[0])), who.fi.qualname if isinstance(who, VFunc) else repr(who))]
+            return NONE
+        ex_.ext_models['signal.signal'] = sig
+
+    def registered_ok(c):
+        r = c.ex.ghost['registered']
+        return z3.BoolVal(r == [('signal.SIGTERM', RS + '.install_handlers.<cleanup>')])
+    registered_ok.__doc__ = 'exactly one handler is registered: the clean-up closure (L2a), for SIGTERM'
+    out.append((Contract(RS + '.install_handlers', lid='L2r', name='C12.L2r install_handlers registers the clean-up closure for SIGTERM',
+                         params={'self': ('const', None)}, self_class=RS, setup=ih_setup, ensures=[registered_ok], raises={}, raises_only=[],
+                         options={'recv_closed_check': False}), None))
+
+    def ba_setup(ex_, env):
+        I = ex_.interp
+        server.server_state(ex_, env)
+        a = ex_.heap[env['self'].addr].attrs
+        host, port = I.sym('bound_host'), I.sym('bound_port')
+        a['addr'] = VTuple([host, port])
+        env['host'], env['port'] = host, port
+        ex_.ghost['connected_to'] = []
+        ex_.ghost['dummy_closed'] = z3.BoolVal(False)
+
+        def connect(ex2, a2, k):
+            ex2.ghost['connected_to'] = ex2.ghost['connected_to'] + [lower(a2[1], ex2)]
+            return NONE
+
+        def exit_(ex2, a2, k):
+            ex2.ghost['dummy_closed'] = z3.BoolVal(True)
+            return VBool(False)
+        ex_.abs_classes['DummyCli'] = AbsClass('DummyCli', fields={}, methods={'connect': connect, '__enter__': lambda ex2, a2, k: a2[0], '__exit__': exit_,
+                                                                                'close': lambda ex2, a2, k: (ex2.ghost.__setitem__('dummy_closed', z3.BoolVal(True)), NONE)[1]},
+                                               text='client socket of the dummy connection')
+        ex_.ext_models['socket.socket'] = lambda ex2, a2, k: VAbs('DummyCli', Val.v_str(z3.IntVal(smt.str_code('<dummy client socket>'))))
+
+    def ba_post(c):
+        ex_ = c.ex
+        ct = ex_.ghost['connected_to']
+        if len(ct) != 1:
+            return z3.BoolVal(False)
+        host, port = c.env['host'].t, c.env['port'].t
+        anyaddr = Val.v_str(z3.IntVal(smt.str_code('0.0.0.0')))
+        loop = Val.v_str(z3.IntVal(smt.str_code('127.0.0.1')))
+        want = Val.v_tup(smt.mk_list([z3.If(host == anyaddr, loop, host), port]))
+        return z3.And(ct[0] == want, ex_.ghost['dummy_closed'])
+    ba_post.__doc__ = 'one connection is made, to the server\'s own listening address (127.0.0.1 when bound to 0.0.0.0, same port), and the dummy socket is closed'
+    out.append((Contract(RS + '.break_accept', lid='L5', name='C12.L5 break_accept makes one dummy connection to the server\'s own address and closes it',
+                         params={'self': ('const', None)}, self_class=RS, setup=ba_setup, ensures=[ba_post], raises={}, raises_only=[],
+                         options={'recv_closed_check': False}), None))
+    return out
 
 
 def server_side_terminate(ex):
